@@ -89,7 +89,9 @@ theorem caseCSS_pos {E : Env} {F : Fixed} {st : St} {lp : Loop} {c : UInt8} {o :
       split at h
       · rename_i hnext
         cases h
-        exact ⟨escape_fall hI hpk (by rw [hbs]; decide) hnext hq.plain rfl rfl rfl rfl rfl rfl rfl, hq⟩
+        rcases hnext with hnext | hnext
+        · exact ⟨escape_fall hI hpk (by rw [hbs]; decide) hnext hq.plain rfl rfl rfl rfl rfl rfl rfl, hq⟩
+        · exact ⟨escape_fall hI hpk (by rw [hbs]; decide) hnext (by decide) rfl rfl rfl rfl rfl rfl rfl, hq⟩
       · cases h; exact stay _ _ rfl rfl rfl rfl rfl rfl rfl (by first | exact hq | exact Or.inl rfl | exact Or.inr (Or.inl rfl) | (rename_i hcq; rcases hcq with e | e <;> (subst e; first | exact Or.inr (Or.inl rfl) | exact Or.inr (Or.inr rfl))))
     · split at h
       · cases h; exact stay _ _ rfl rfl rfl rfl rfl rfl rfl (by first | exact hq | exact Or.inl rfl | exact Or.inr (Or.inl rfl) | (rename_i hcq; rcases hcq with e | e <;> (subst e; first | exact Or.inr (Or.inl rfl) | exact Or.inr (Or.inr rfl))))
@@ -121,7 +123,9 @@ theorem caseJSString_pos {E : Env} {F : Fixed} {st : St} {lp : Loop} {c : UInt8}
     split at h
     · rename_i hnext
       cases h
-      exact ⟨escape_fall hI hpk (by rw [hbs]; decide) hnext hq2 rfl rfl rfl rfl rfl rfl rfl, hq⟩
+      rcases hnext with hnext | hnext
+      · exact ⟨escape_fall hI hpk (by rw [hbs]; decide) hnext hq2 rfl rfl rfl rfl rfl rfl rfl, hq⟩
+      · exact ⟨escape_fall hI hpk (by rw [hbs]; decide) hnext (by decide) rfl rfl rfl rfl rfl rfl rfl, hq⟩
     · cases h; exact stay _ _ rfl rfl rfl rfl rfl rfl rfl (by first | exact hq | exact Or.inl rfl | exact Or.inr (Or.inl rfl) | (rename_i hcq; rcases hcq with e | e <;> (subst e; first | exact Or.inr (Or.inl rfl) | exact Or.inr (Or.inr rfl))))
   · split at h
     · cases h; exact stay _ _ rfl rfl rfl rfl rfl rfl rfl (by first | exact hq | exact Or.inl rfl | exact Or.inr (Or.inl rfl) | (rename_i hcq; rcases hcq with e | e <;> (subst e; first | exact Or.inr (Or.inl rfl) | exact Or.inr (Or.inr rfl))))
